@@ -246,3 +246,25 @@ spec fn zone_verdict(z: TimeZoneRef, r: Result<(), TzError>) -> bool {
         },
     }
 }
+
+// ---- the owned zone: same data, held in vectors --------------------------------------------------------
+
+// a borrowed zone that views exactly the owned zone's data (zone predicates depend on the views only)
+spec fn zone_views(zr: TimeZoneRef, z: TimeZone) -> bool {
+    &&& zr.transitions@ == z.transitions@
+    &&& zr.local_time_types@ == z.local_time_types@
+    &&& zr.leap_seconds@ == z.leap_seconds@
+    &&& *zr.extra_rule == z.extra_rule
+}
+
+// type invariant of the owned zone, established by TimeZone::new: its data passed the borrowed zone's check
+spec fn owned_zone_wf(z: TimeZone) -> bool {
+    exists|zr: TimeZoneRef| zone_views(zr, z) && zone_parts_wf(zr) && #[trigger] zone_verdict(zr, Ok(()))
+}
+
+spec fn verdict_of(r: Result<TimeZone, TzError>) -> Result<(), TzError> {
+    match r {
+        Ok(_) => Ok(()),
+        Err(e) => Err(e),
+    }
+}
